@@ -31,11 +31,18 @@ RULE = ("a case = scenario x response variant x password used.  Scenario: factor
         "with p over the unaltered challenge, comes from the address the challenge was issued to and is inside the "
         "lifetime; otherwise decode raises LoginFailed or checkPassword is False; no other exception ever.  Where the "
         "statement does not decide (realm/algorithm echo altered, qop omitted) only the exception rule is judged.  "
-        "non-trivial = distinct (scenario class, variant) whose outcome is not a plain accept")
+        "Histories: on ONE fresh factory per history, every sequence of 2 (one configuration: 3) decode() "
+        "calls drawn from {right, wrong password, tampered nonce, tampered opaque, opaque of another challenge} x "
+        "{issuing address, other address} x age {0, lifetime-1, lifetime+1.25, 3*lifetime} with non-decreasing clock; the "
+        "per-call verdict must hold at the time of that call whatever was presented before (a violation that does not "
+        "occur when the call is made alone is marked only-after-earlier-calls).  "
+        "non-trivial = distinct (scenario class, variant) whose outcome is not a plain accept; distinct histories mixing "
+        "times or kinds")
 BOUNDS = {"quick": "810 scenarios x 608 single variants x 2 passwords; all field-disjoint pairs of 121 representative "
-                   "variants (one per mutation class) in 6 scenarios",
+                   "variants (one per mutation class) in 6 scenarios; histories of 3 calls (md5) / 2 calls (sha via web, MD5) "
+                   "over a 40-call alphabet",
           "thorough": "810 scenarios x 608 single variants x 2 passwords; all field-disjoint pairs of 121 representative "
-                      "variants in 54 scenarios"}
+                      "variants in 54 scenarios; histories of 3 calls (md5) / 2 calls (sha via web, MD5) over a 40-call alphabet"}
 ASSUMPTIONS = [
     "the clock is DigestCredentialFactory._getTime (instance attribute set by the harness); random bytes come from "
     "credentials.secureRandom rebound to a counter-based deterministic source",
@@ -47,8 +54,8 @@ ASSUMPTIONS = [
     "unquoted values, a missing algorithm and an upper-case algorithm are accepted because the project's own tests "
     "document them as intended (test_responseWithoutQuotes, test_md5DefaultAlgorithm, test_caseInsensitiveAlgorithm)",
 ]
-MIN = {"quick": {"evaluations": 300000, "nontrivial": 150000, "outcomes": 6},
-       "thorough": {"evaluations": 700000, "nontrivial": 450000, "outcomes": 6}}
+MIN = {"quick": {"evaluations": 300000, "nontrivial": 150000, "outcomes": 6, "history_calls_after_an_accepted_call": 1500},
+       "thorough": {"evaluations": 700000, "nontrivial": 450000, "outcomes": 6, "history_calls_after_an_accepted_call": 1500}}
 
 REALM = b"test realm"
 USER = b"user"
@@ -611,6 +618,83 @@ def judge(ctx, variants, pw_used, host, singles=None):
     return bad, outcome, res
 
 
+
+# ---------------------------------------------------------------- histories of several decode() calls on ONE factory
+
+H_KINDS = {"right": ("layout:rfc", PW_R), "wrong-password": ("layout:rfc", PW_W),
+           "tampered-nonce": ("client:altered-nonce", PW_R),
+           "tampered-opaque": ("opaque:replace:digest-mid:plain", PW_R),
+           "opaque-of-other-challenge": ("opaque:from-other-challenge", PW_R)}
+H_HOSTS = [ADDR_A, ADDR_B]
+H_AGES = ["0", "L-1", "L+1.25", "3L"]
+H_CONFIGS = [("md5", "cred-bytes", 3), ("sha", "web", 2), ("MD5", "cred-str", 2)]      # (algorithm, route, calls)
+H_T0 = T0S[1]
+
+
+def history_calls():
+    return [(k, h, a) for k in H_KINDS for h in H_HOSTS for a in H_AGES]
+
+
+def histories(n, head):
+    """Every sequence of n calls starting with head whose clock times are non-decreasing."""
+    calls = history_calls()
+    for rest in itertools.product(calls, repeat=n - 1):
+        seq = (head,) + rest
+        ages = [H_AGES.index(c[2]) for c in seq]
+        if all(ages[i] <= ages[i + 1] for i in range(n - 1)):
+            yield seq
+
+
+def history_variants(ctx):
+    """The four response variants the histories use (same definitions as in build_variants, built alone: cheap)."""
+    n0 = ctx["chal"]["nonce"]
+    alt_nonce = n0[:-1] + _plain_other(n0[-1])
+    c2 = ctx["chal2"]
+    vs = [Variant("layout:rfc", "layout:rfc", [], INTACT),
+          Variant("client:altered-nonce", "client:altered-nonce", ["nonce"], REJECT, pre=lambda r: r.hash.update(nonce=alt_nonce)),
+          Variant("opaque:replace:digest-mid:plain", "opaque:char-replaced:digest-half", ["opaque"], REJECT,
+                  post=_edit("opaque", "digest-mid", "replace", None)),
+          Variant("opaque:from-other-challenge", "opaque:from-other-challenge", ["opaque"], REJECT,
+                  pre=lambda r: setattr(r, "opaque", c2["opaque"]))]
+    return {v.tag: v for v in vs}
+
+
+def run_history(algo, route, seq):
+    """Fresh factory, one challenge issued to ADDR_A at H_T0 (plus a second challenge and a second factory), then the
+    calls in order on the same factory; every call is judged by the per-call oracle, whatever happened before."""
+    sc = (algo, route, ADDR_A, ADDR_A, "0", H_T0)
+    ctx = scenario_ctx(sc)
+    try:
+        w = ctx["world"]
+        L = w.lifetime
+        V = history_variants(ctx)
+        ctx["variants"] = list(V.values())
+        bad, outcomes = [], []
+        for i, (kind, host, age) in enumerate(seq):
+            tag, pw = H_KINDS[kind]
+            dt = {"0": 0, "L-1": L - 1, "L+1.25": L + 1.25, "3L": 3 * L}[age]
+            w.clock[0] = H_T0 + dt
+            inside = dt < L
+            ctx.update(now=int(H_T0 + dt), age=age, baseline={}, valid=(host == ADDR_A and inside),
+                       why_invalid=None if (host == ADDR_A and inside) else ("other-address" if host != ADDR_A else "expired"))
+            b, outcome, res = judge(ctx, (V[tag],), pw, host)
+            outcomes.append(outcome)
+            for sig, det in b:
+                bad.append((sig, dict(det, call_index=i, history=[list(c) for c in seq]), i))
+        return bad, outcomes
+    finally:
+        ctx["world"].close()
+
+
+def judge_history(algo, route, seq):
+    bad, outcomes = run_history(algo, route, seq)
+    out = []
+    for sig, det, i in bad:
+        if i > 0 and not run_history(algo, route, seq[i:i + 1])[0]:
+            sig += ":only-after-earlier-calls-on-the-same-factory"
+        out.append((sig, det))
+    return out, outcomes
+
 # ---------------------------------------------------------------- enumeration
 
 ROUTES = ["cred-bytes", "cred-str", "web"]
@@ -654,6 +738,11 @@ def shards(tier, seed):
     for sc in pair_scenarios(tier):
         for k in range(4):
             out.append(["pairs", list(sc), k, 4])
+    calls = history_calls()
+    for algo, route, nq in H_CONFIGS:
+        n = nq            # the same small sub-family in both tiers
+        for first in range(len(calls)):
+            out.append(["history", [algo, route], n, first])
     return out
 
 
@@ -664,6 +753,21 @@ def _jsc(sc):
 def run_shard(shard, tier, seed):
     st = Stats()
     fam = shard[0]
+    if fam == "history":
+        (algo, route), n, first = shard[1], shard[2], shard[3]
+        algo_b = algo.encode("ascii")
+        head = history_calls()[first]
+        for seq in histories(n, head):
+            st.evaluations += n
+            bad, outcomes = judge_history(algo_b, route, seq)
+            st.outcome("history:" + "/".join("accept" if o == "checked:T/F" or o == "checked:F/T" else "reject" for o in outcomes))
+            if len({c[2] for c in seq}) > 1 or len({c[0] for c in seq}) > 1:
+                st.nt(("history", algo, route, seq))
+            st.count("history_calls_after_an_accepted_call", sum(1 for i, o in enumerate(outcomes[1:]) if "T" in outcomes[i]))
+            for sig, det in bad:
+                st.violation(sig, det, {"family": "history", "config": [algo, route], "calls": [list(c) for c in seq]})
+        st.sample({"history": [list(c) for c in seq], "config": [algo, route]})
+        return st
     sc = tuple(shard[1])
     sc = (sc[0].encode("ascii") if isinstance(sc[0], str) else sc[0],) + sc[1:]
     ctx = scenario_ctx(sc)
@@ -717,6 +821,8 @@ def run_shard(shard, tier, seed):
 
 
 def replay(w):
+    if w.get("family") == "history":
+        return judge_history(w["config"][0].encode("ascii"), w["config"][1], tuple(tuple(c) for c in w["calls"]))[0]
     sc = tuple(w["scenario"])
     sc = (sc[0].encode("ascii"),) + sc[1:]
     ctx = scenario_ctx(sc)
